@@ -169,7 +169,7 @@ def probe_tree(net, ref, scaffold, rng=None):
     return (tree, amap, cnt), fails, status
 
 
-def probe_permute(net, tree, cnt, rng):
+def probe_permute(net, tree, cnt, rng, nterm=None, amap=None):
     """permute_axes on a random node must not change the contraction (for a leaf the stored
     tensor is transposed by hand, as the test-suite does).  Returns (case term, fails)."""
     from qib.tensor_network.contraction_tree import perform_tree_contraction
@@ -177,7 +177,7 @@ def probe_permute(net, tree, cnt, rng):
     nodes = list(tn.tree_nodes(tree))
     path, node = rng.choice(nodes)
     if node.ndim == 0:
-        return None, fails
+        return [], fails
     perm = list(range(node.ndim))
     rng.shuffle(perm)
     before = tn.tree_term(tree)
@@ -201,7 +201,13 @@ def probe_permute(net, tree, cnt, rng):
     except Exception as e:
         fails.append(("permute_axes:exception:" + type(e).__name__, "unchanged", repr(e)))
     term = "CPerm %s %s %s (Some %s)" % (before, ct.lst([ct.b(p == 0) for p in path]), tn.nl(perm), after)
-    return term, fails
+    terms = [term]
+    if not node.is_leaf and nterm is not None:
+        # the permuted tree must still be accepted by the verified checker (=> same dense tensor);
+        # a permutation of the root moves the legs the axes map points to
+        am = [perm.index(a) for a in amap] if len(path) == 0 else list(amap)
+        terms.append("CChk %s %s %s true" % (nterm, after, tn.nl(am)))
+    return terms, fails
 
 
 def run(ctx):
@@ -209,8 +215,8 @@ def run(ctx):
                        "(axis tracking, root permutation), permute_axes, perform_tree_contraction are hand-modelled (Qib.TN.TNValue, "
                        "TNTree) and tied by exact correspondence (index lists per tree node, axes maps, integer values); "
                        "numpy.einsum is modelled by its defining sum (einsum_sem), np.argsort of a permutation by the inverse permutation")
-    ctx.assumes.append("model = /repo with proposed_fixes/C07-contract-einsum-ones-dimension.diff and C07-is-consistent-leg-count.diff; "
-                       "tensor data are ring elements (exact arithmetic); the tree path is proved through a verified checker executed on "
+    ctx.assumes.append("model = /repo (incl. its commit f430c25 'contract_einsum looked up an einsum label in a list of positions') with proposed_fixes/C07-is-consistent-leg-count.diff; "
+                       "tensor data are ring elements (exact arithmetic); the tree path is proved through a verified checker (check_root_sound) executed in Coq on "
                        "every tree of the run (the universal theorem about the builder is not proved)")
     ctx.rules.append("random consistent networks (0-6 tensors, degree<=4, bond dims 1-3, hyper-bonds<=5 legs, multi-edges, self-traces, "
                      "shared open bonds, identity wires, negative ids) with small Gaussian-integer data; scaffolds: all binary trees with "
@@ -225,10 +231,10 @@ def run(ctx):
         cases.append((term, tn.to_jsonable(desc)))
 
     nets = [(name, d, {"directed"}) for name, d in DIRECTED]
-    for _ in range(400 if ctx.thorough else 110):
+    for _ in range(300 if ctx.thorough else 70):
         d, feats = tn.gen_net(rng, nt_max=6, open_max=4, cap=60000 if ctx.thorough else 30000)
         nets.append(("random", d, feats))
-    exhaustive_budget = {4: 30 if ctx.thorough else 2, 5: 6 if ctx.thorough else 0, 6: 0}
+    exhaustive_budget = {4: 20 if ctx.thorough else 1, 5: 4 if ctx.thorough else 0, 6: 0}
     ntrees = 0
     for name, desc, feats in nets:
         inp = {"net": desc}
@@ -283,6 +289,10 @@ def run(ctx):
             add("CTree %s %s %s (Some %s) %s" % (
                 nterm, dterm, tn.scaffold_term(sc), ct.pair(tn.tree_term(tree), tn.nl(amap), tn.dense_term(cnt)),
                 "(Some %s)" % tn.dense_term(ref) if status == "ok" else "None"), dict(tinp, kind="tree"))
+            if status in ("known", "wrong"):
+                # the verified checker must refuse a tree whose value is not the defining sum
+                add("CChk %s %s %s false" % (nterm, tn.tree_term(tree), tn.nl(amap)), dict(tinp, kind="checker-rejects"))
+                ctx.count("checker_rejects_wrong_tree")
             if rng.random() < (0.25 if len(scaffolds) > 20 else 1.0):
                 try:
                     raw = net.net.build_contraction_tree(copy.deepcopy(sc))
@@ -290,10 +300,10 @@ def run(ctx):
                 except Exception as e:
                     ctx.fail("build_contraction_tree:exception:" + type(e).__name__, tn.to_jsonable(tinp), "tree", repr(e))
                 if status == "ok":
-                    term, pf = probe_permute(net, tree, cnt, rng)
+                    terms, pf = probe_permute(net, tree, cnt, rng, nterm, amap)
                     for sig, e, g in pf:
                         ctx.fail(sig, tn.to_jsonable(tinp), e, g)
-                    if term:
+                    for term in terms:
                         add(term, dict(tinp, kind="permute"))
     ctx.count("trees", ntrees)
     # ---------------- consistency check: negatives
@@ -312,7 +322,8 @@ def run(ctx):
                      tn.to_jsonable(inp), refc, cons)
         refs = tn.Refs()
         add("CSeq %s %s [] [] None" % (tn.net_term(stn, refs), ct.b(cons)), inp)
-    dis = ctx.cases("contract", HEADER, cases, shard=150)
+    ctx.log("implementation runs done: %d cases, %d trees" % (len(cases), ntrees))
+    dis = ctx.cases("contract", HEADER, cases, shard=100)
     for i, d in dis[:6]:
         ctx.log("model/impl disagree on", str(d)[:500])
 
